@@ -56,8 +56,8 @@ class Prop(PropBase):
             P = rng.choice([1, 2, 3, 4, 5, 8, 8, 256])      # 256 = the default nperseg (then the argument is left out)
             L = rng.choice([P, 2 * P, 3 * P + 1, 4 * P + P - 1, 32])
             yield {"op": "stft", "cls": rng.choice(["BasebandSignal", "DualPolarizationSignal"]), "n": rng.choice([1, 2, 3, 4]),
-                   "al": rng.choice(["bottom", "center", "top"]), "P": P, "L": max(L, P), "rate": rng.choice([1e3, 1e6, 8e6]),
-                   "cf": rng.choice([400e6, 1.4e9]), "tone": [rng.randrange(0, 4), rng.randrange(0, 8)],
+                   "al": rng.choice(["bottom", "center", "top"]), "P": P, "L": max(L, P), "rate": rng.choice([1e3, 1e6, 8e6, 3.2e6, 1e4]),
+                   "cf": rng.choice([400e6, 1.4e9, 1420.405751e6, 8.4123e9]), "tone": [rng.randrange(0, 4), rng.randrange(0, 8)],
                    "t0": rng.choice(sigs.T0S + [None]), "seed": rng.randrange(1 << 30)}
 
     # ------------------------------------------------------------------ fft names
@@ -159,7 +159,9 @@ class Prop(PropBase):
         if case["seed"] % 5 == 0:
             x = x * [1e-9, 1e-12][case["seed"] % 2]              # weak signals: the transforms are linear
         kw = {"pol_type": "linear"} if case["cls"] == "DualPolarizationSignal" else {}
-        z = sigs.make(pb, case["cls"], L, case["rate"] * u.Hz, case["t0"], nchan=n, data=x, center_freq=case["cf"] * u.Hz,
+        # the same rate / centre written in Hz or (every second case) in MHz, where the values are no longer whole numbers
+        rq, cq = (case["rate"] * u.Hz, case["cf"] * u.Hz) if case["seed"] % 2 else ((case["rate"] / 1e6) * u.MHz, (case["cf"] / 1e6) * u.MHz)
+        z = sigs.make(pb, case["cls"], L, rq, case["t0"], nchan=n, data=x, center_freq=cq,
                       freq_align=case["al"], **kw)
         try:
             # the segment length as a Python int or a NumPy integer; the default (256) by omission
@@ -318,7 +320,8 @@ class Prop(PropBase):
         s = code["stft"]
         if s["cls"] != case["cls"] or s["len"] != L // P or s["n"] != n * P:
             return f"stft class/len/nchan = {s['cls']},{s['len']},{s['n']}"
-        if not X.close(F(s["rate"]), rate / P, rtol=F(1, 10**14)) or not X.close(F(s["bw"]), rate / P, rtol=F(1, 10**14)):
+        # one division: correct to an ulp (a difference of band edges divided by the channel count is not)
+        if not X.close(F(s["rate"]), rate / P, rtol=F(1, 2**51)) or not X.close(F(s["bw"]), rate / P, rtol=F(1, 2**51)):
             return "stft sample_rate/chan_bw is not rate/nperseg"
         if case["t0"] is not None and (s["t0"] is None or abs(F(s["t0"])) > F(1, 10**10)):
             return "stft changed the start time"
@@ -339,7 +342,7 @@ class Prop(PropBase):
         if code.get("repeat_ok") is False:
             return "istft (or stft) called a second time on the same object gives a different answer, or changed its argument"
         w = code["istft"]
-        if w["cls"] != case["cls"] or w["len"] != (L // P) * P or w["n"] != n or not X.close(F(w["rate"]), rate, rtol=F(1, 10**14)):
+        if w["cls"] != case["cls"] or w["len"] != (L // P) * P or w["n"] != n or not X.close(F(w["rate"]), rate, rtol=F(1, 2**50)):
             return f"istft(stft(z)) class/len/nchan/rate = {w['cls']},{w['len']},{w['n']},{w['rate']}"
         if any(not X.close(F(a), F(b), atol=tol) for a, b in zip(w["labels"], code["orig_labels"])):
             return "istft(stft(z)) channel labels differ from the original"
